@@ -708,7 +708,19 @@ def extract_adapters(errors):
         for n in ["AVRO_TYPE_MAP", "RECORD_TYPE_MAP"]:
             L.append(f"def {n} : List (String × String) := {lpairs(const_eval(module_assign(t, n), {}))}")
         c = src(find_def(t, "close", cls="AvroWriter"))
-        L.append(f"def avroCloseFlushes : Bool := {lbool('flush()' in c)}")
+        # the pending block is flushed UNCONDITIONALLY while the file is open: `self.writer.flush()` is a direct statement of
+        # the `if self.fp:` body (not under the stdout test or any other branch) and comes before `self.fp.close()`
+        cd = find_def(t, "close", cls="AvroWriter")
+        uncond = False
+        for st_ in cd.body:
+            if isinstance(st_, ast.If) and src(st_.test) == "self.fp":
+                direct = [src(x) for x in st_.body]
+                if "self.writer.flush()" in direct:
+                    after = direct[direct.index("self.writer.flush()") + 1:]
+                    before = direct[:direct.index("self.writer.flush()")]
+                    uncond = not any("self.fp.close()" in x for x in before) and not any("return" in x for x in before)
+                    del after
+        L.append(f"def avroCloseFlushes : Bool := {lbool('flush()' in c and uncond)}")
         r = src(find_def(t, "__iter__", cls="AvroReader"))
         L.append("def avroReaderFilterPattern : Bool := "
                  + lbool("if not self.selector or self.selector.match(rec):" in r))
@@ -853,6 +865,9 @@ def extract_adapters(errors):
         rsp = src(find_def(st, "record_stream_for_path", cls="PathTemplateWriter"))
         i_rot, i_new = rsp.find("self.rotate_existing_file(path)"), rsp.find("RecordWriter(path)")
         L.append(f"def templateRotatesBeforeOpen : Bool := {lbool(0 <= i_rot < i_new)}")
+        tw = find_def(st, "write", cls="PathTemplateWriter")
+        L.append("def templateWriteBody : List String := " + llist(lstr(src(x)) for x in tw.body
+                                                                    if not (isinstance(x, ast.Expr) and isinstance(x.value, ast.Constant))))
         sp = parse("flow/record/adapter/split.py")
         nx = src(find_def(sp, "_next_path", cls="SplitWriter"))
         L.append("def splitNextPathShape : Bool := "
